@@ -1,6 +1,8 @@
 """C04 - each time level is the implicit backward-Euler update of the previous one."""
 import json
 
+import warnings
+
 import numpy as np
 
 from vlib import core, dom, rescorr
@@ -120,6 +122,29 @@ def run(ctx):
     rng = dom.rng_for(ctx, 4)
     n = 20 if ctx.quick else 200
     cases = rescorr.gen_cases(rng, n, ctx.quick, nt_max=25 if ctx.quick else 60) + extra_cases(rng, ctx.quick)
+    # the other public entry points that drive the simulator are used FIRST, including in ways that make them raise (a history match
+    # whose pressure limit lies beyond the table, a rejected schedule): whatever they do, every later step must still be the
+    # backward-Euler update to rounding level - the runs below are made after them and compared with runs made before
+    probe_cases = cases[:6]
+    before = [rescorr.run_impl(c) for c in probe_cases]
+    import pandas as pd
+    from bluebonnet.forecast import forecast_pressure as fpm
+    tbh = rescorr.shipped_gas(stride=20)
+    prod_h = pd.DataFrame({"Days": np.arange(40.0), "Gas": np.linspace(50, 5, 40), "Pressure": np.linspace(3000, 900, 40)})
+    with warnings.catch_warnings():
+        warnings.simplefilter("ignore")
+        # (a) a gauge history above the table's last pressure: the first objective evaluation raises; (b) an ordinary short fit
+        prod_bad = prod_h.assign(Pressure=np.linspace(1.3, 1.05, 40) * float(tbh["pressure"][-1]))
+        for pd_, kw in ((prod_bad, dict(pressure_imax=float(tbh["pressure"][-1]) * 3.0, n_iter=5)), (prod_h, dict(pressure_imax=float(tbh["pressure"][-1]) * 0.9, n_iter=3))):
+            try:
+                fpm.fit_production_pressure(pd_, pd.DataFrame(tbh), float(tbh["pressure"][-1]) * 0.6, **kw)
+            except Exception:  # noqa: BLE001, S110
+                pass
+    for c_, b_, a_ in zip(probe_cases, before, [rescorr.run_impl(c) for c in probe_cases]):
+        if "field" in b_ and ("field" not in a_ or not np.array_equal(a_["field"], b_["field"])):
+            ctx.violations.append(dict(what="a simulation gives another pseudopressure field after an (unsuccessful) history-match call in the same process: the time levels are no longer the same "
+                                            "implicit updates (solver settings changed behind the simulator's back)", key="cross-call-state", input=dict(**rescorr.replay_payload(c_), earlier_in_the_process="fit_production_pressure with pressure_imax beyond the table (raises)"),
+                                       observed=dict(max_field_diff=float(np.abs(a_["field"] - b_["field"]).max()) if "field" in a_ else a_.get("error"))))
     impls = [rescorr.run_impl(c) for c in cases]
     ok = [k for k, im in enumerate(impls) if "field" in im and len(cases[k]["times"]) * cases[k]["nx"] <= 9000]
     res = rescorr.run_cases(ctx, [cases[k] for k in ok], [impls[k] for k in ok], "C04", shard=2)
